@@ -1,5 +1,5 @@
 (* e2_driver.ml — lockstep replay of macro-level observations (vh-macro) on the extracted
-   Wrapper/Registry model (Wrapper.v: call, world_call, invalidate_*, stats_*).
+   Wrapper/Registry model (Wrapper.v: call, world_call, invalidations, statistics).
    usage: e2_driver <corpus_table> <obs-file> [--preds p1,p2,..]
    Output: "V <case> ok | MISMATCH <event idx> <what> .. | PANIC .. | SKIP timing | CRASH",
            "F <case> <pred> <event idx> <detail>" for property oracles failing on the
@@ -124,6 +124,23 @@ let () =
   let seen_calls : (int * int * int, int) Hashtbl.t = Hashtbl.create 64 in    (* (f, x, tid-or--1) -> executions *)
   let last_body : (int * int * int, int) Hashtbl.t = Hashtbl.create 64 in
   let nontrivial = ref false in
+  let inval_seen = ref false in
+  let prev_inst : (int * int, winst) Hashtbl.t = Hashtbl.create 64 in       (* last snapshot of every instance *)
+  let exp_stats : (int, int * int) Hashtbl.t = Hashtbl.create 64 in          (* f -> hits, misses expected from exec flags *)
+  let has p = List.mem p !preds in
+  let is_plain (f : fn) = f.w.w_cfg.limit = None && f.w.w_cfg.ttl = None && f.w.w_cfg.maxmem = None
+                          && not f.w.w_cache_if && not f.w.w_inval_on && not f.w.w_result in
+  let impl_store_decision (f : fn) ok cif =
+    if f.fl = "a" then (if f.w.w_cache_if then cif else if f.w.w_result then ok else true)
+    else (if f.w.w_cache_if then cif else true) && (if f.w.w_result then ok else true) in
+  (* frame oracle: every instance except those in [touched] must be unchanged since the previous event *)
+  let check_frame what touched instances =
+    List.iter (fun wi ->
+        if not (List.mem (wi.wf, wi.wtid) touched) then
+          match Hashtbl.find_opt prev_inst (wi.wf, wi.wtid) with
+          | Some p when p.wq <> wi.wq || p.wstore <> wi.wstore ->
+            fail what (Printf.sprintf "instance f%d/%d changed although the operation does not concern it" wi.wf wi.wtid)
+          | _ -> ()) instances in
   let inst_key (f : fn) tid = if f.fl = "t" then tid else -1 in
   let get_entry f tid = List.nth !world (Hashtbl.find !index (f, tid)) in
   let set_world w = world := w in
@@ -147,6 +164,9 @@ let () =
             if (mq, mst, mh, mm) <> impl then
               set_verdict (Printf.sprintf "MISMATCH %d state f%d/%d model={%s} impl={%s}" !evidx wi.wf wi.wtid
                              (show_inst (mq, mst, mh, mm)) (show_inst impl))) instances in
+      (match kind with
+       | "tag" | "event" | "dep" | "invc" | "invcn" | "invw" | "invall" -> inval_seen := true
+       | _ -> ());
       (match kind, rest with
        | "call", f :: x :: tid :: ok :: v :: len :: inv :: cif :: _ ->
          let f = int_of_string f and x = int_of_string x and tid = int_of_string tid in
@@ -177,6 +197,47 @@ let () =
          (* C01 oracle for pure bodies is done by the caller through --preds pure: returned = body outcome *)
          if List.mem "pure" !preds && field "panic" = None && enc_v <> int_of_n (enc body) then
            fail "c01_value" (Printf.sprintf "f%d x=%d returned %d but the function's value is %d" f x enc_v (int_of_n (enc body)));
+         let this_inst = List.find_opt (fun wi -> wi.wf = f && wi.wtid = itid) instances in
+         let stored_after = (match this_inst with Some wi -> List.assoc_opt x wi.wstore | None -> None) in
+         let okb = (ok = "ok") and cifb = (cif = "1") and invb = (inv = "1") in
+         if field "panic" = None then begin
+           if has "once" && is_plain fn && not !inval_seen then begin
+             let first = not (Hashtbl.mem seen_calls (f, x, itid)) || (exec > 0 && Hashtbl.find seen_calls (f, x, itid) = exec) in
+             if exec > 0 && not first then fail "once" (Printf.sprintf "f%d x=%d: body ran again although the result was stored before" f x);
+             if exec = 0 && first then fail "once" (Printf.sprintf "f%d x=%d: first call was served without running the body" f x)
+           end;
+           if has "err" && fn.w.w_result && not fn.w.w_cache_if then begin
+             if exec = 0 && enc_v land 1 = 1 then fail "err" (Printf.sprintf "f%d x=%d: an Err was served from the cache" f x);
+             (match this_inst with
+              | Some wi -> List.iter (fun (k, (v, _, _)) -> if v land 1 = 1 then fail "err" (Printf.sprintf "f%d: an Err is stored under key %d" f k)) wi.wstore
+              | None -> ())
+           end;
+           if has "cif" && fn.w.w_cache_if then begin
+             let want = if exec > 0 then Printf.sprintf "%d:%d" x (int_of_n (enc body)) else "-" in
+             if ciflog <> want then fail "cif" (Printf.sprintf "f%d x=%d: cache_if consultations %s, expected %s" f x ciflog want);
+             if exec > 0 && not cifb && not fn.w.w_inval_on && stored_after <> None then
+               fail "cif" (Printf.sprintf "f%d x=%d: result rejected by cache_if is stored" f x)
+           end;
+           if has "inv" && fn.w.w_inval_on then begin
+             if exec = 0 && invlog = "-" then fail "inv" (Printf.sprintf "f%d x=%d: cached value served without consulting invalidate_on" f x);
+             if invlog <> "-" && invb && exec = 0 then fail "inv" (Printf.sprintf "f%d x=%d: stale entry served" f x);
+             if invlog <> "-" && not invb && exec > 0 then fail "inv" (Printf.sprintf "f%d x=%d: fresh entry recomputed" f x);
+             if invlog <> "-" && invb && exec > 0 && impl_store_decision fn okb cifb && fn.w.w_cfg.maxmem = None then
+               (match stored_after with
+                | Some (v, _, _) when v = int_of_n (enc body) -> ()
+                | _ -> fail "inv" (Printf.sprintf "f%d x=%d: fresh result did not replace the stale entry" f x))
+           end;
+           if has "iso" then check_frame "iso" [(f, itid)] instances;
+           if has "stats" && fn.fl <> "t" && not fn.w.w_inval_on then begin
+             let (h, m) = (try Hashtbl.find exp_stats f with Not_found -> (0, 0)) in
+             let (h, m) = if exec = 0 then (h + 1, m) else (h, m + 1) in
+             Hashtbl.replace exp_stats f (h, m);
+             (match this_inst with
+              | Some { whits = Some ih; wmisses = Some im; _ } when (ih, im) <> (h, m) ->
+                fail "stats" (Printf.sprintf "f%d: statistics %d/%d, expected %d hits %d misses from the executions seen" f ih im h m)
+              | _ -> ())
+           end
+         end;
          (* choices for the random policy: permutations of the keys that disappeared from this instance *)
          let pre_e = List.nth !world widx in
          let pre_keys = List.map (fun (k, _) -> int_of_n k) pre_e.ce_st.st_store in
@@ -214,6 +275,18 @@ let () =
          let t = (match kind with "tag" -> ByTag | "event" -> ByEvent | _ -> ByDep) in
          let (w', n) = invalidate_by t (n_of_int (intern name)) !world in
          set_world w';
+         (* oracle from the corpus table and what the implementation has used so far *)
+         let matching = List.filter (fun wi -> wi.wtid = -1 &&
+                                                (let fn = fns.(wi.wf) in
+                                                 (fn.tags <> [] || fn.events <> [] || fn.deps <> []) &&
+                                                 List.mem name (match kind with "tag" -> fn.tags | "event" -> fn.events | _ -> fn.deps))) instances in
+         if has "tags" then begin
+           List.iter (fun wi -> if wi.wq <> [] || wi.wstore <> [] then
+                         fail "tags" (Printf.sprintf "cache f%d declares %s %s but still holds entries" wi.wf kind name)) matching;
+           if rl <> ["count"; string_of_int (List.length matching)] then
+             fail "tags" (Printf.sprintf "%s %s returned %s, %d used caches declare it" kind name !got_r (List.length matching))
+         end;
+         if has "frame" then check_frame "frame" (List.map (fun wi -> (wi.wf, wi.wtid)) matching) instances;
          if int_of_n n > 0 then nontrivial := true;
          if rl <> ["count"; string_of_int (int_of_n n)] then
            set_verdict (Printf.sprintf "MISMATCH %d %s %s model=count %d impl=%s" !evidx kind name (int_of_n n) !got_r)
@@ -231,6 +304,18 @@ let () =
          let ks = if xs = "-" then [] else List.map (fun s -> n_of_int (int_of_string s)) (split_on ',' xs) in
          let (w', b) = invalidate_with (n_of_int (intern fns.(int_of_string f).name)) ks !world in
          set_world w'; nontrivial := true;
+         if has "frame" then begin
+           let fi = int_of_string f in
+           check_frame "frame" [(fi, -1)] instances;
+           let xs' = List.map int_of_n ks in
+           (match List.find_opt (fun wi -> wi.wf = fi && wi.wtid = -1) instances, Hashtbl.find_opt prev_inst (fi, -1) with
+            | Some wi, Some p ->
+              if wi.wstore <> List.filter (fun (k, _) -> not (List.mem k xs')) p.wstore then
+                fail "frame" (Printf.sprintf "invalidate_with on f%d did not remove exactly the matching entries" fi);
+              if wi.wq <> List.filter (fun k -> not (List.mem k xs')) p.wq then
+                fail "frame" (Printf.sprintf "invalidate_with on f%d left the order queue inconsistent" fi)
+            | _ -> ())
+         end;
          if rl <> ["bool"; (if b then "1" else "0")] then
            set_verdict (Printf.sprintf "MISMATCH %d invw f%s model=%b impl=%s" !evidx f b !got_r)
        | "invwn", name :: _ ->
@@ -257,11 +342,21 @@ let () =
        | "sreset", f :: _ ->
          let (w', b) = stats_reset (n_of_int (intern fns.(int_of_string f).name)) !world in
          set_world w';
+         if has "stats" then begin
+           let fi = int_of_string f in
+           if Hashtbl.mem prev_inst (fi, -1) then Hashtbl.replace exp_stats fi (0, 0);
+           List.iter (fun wi -> if wi.wtid = -1 && not fns.(wi.wf).w.w_inval_on then
+                         match Hashtbl.find_opt exp_stats wi.wf, wi.whits, wi.wmisses with
+                         | Some (h, m), Some ih, Some im when (h, m) <> (ih, im) ->
+                           fail "stats" (Printf.sprintf "after reset of f%d the statistics of f%d are %d/%d, expected %d/%d" fi wi.wf ih im h m)
+                         | _ -> ()) instances
+         end;
          if rl <> ["bool"; (if b then "1" else "0")] then
            set_verdict (Printf.sprintf "MISMATCH %d sreset f%s model=%b impl=%s" !evidx f b !got_r)
        | "nop", _ -> ()
        | _ -> failwith ("event " ^ kind));
       if !verdict = None then check_instances ();
+      List.iter (fun wi -> Hashtbl.replace prev_inst (wi.wf, wi.wtid) wi) instances;
       ev := []; rline := []; ws := []
     | _ -> () in
   (try
@@ -274,13 +369,14 @@ let () =
          let (w, ix) = build_world fns in
          world := w; index := ix; verdict := None; evidx := 0; skip := false; fails := [];
          Hashtbl.reset seen_calls; Hashtbl.reset last_body; nontrivial := false;
+         Hashtbl.reset prev_inst; Hashtbl.reset exp_stats; inval_seen := false;
          ev := []; rline := []; ws := []
        | "E" :: rest -> ev := rest
        | "R" :: rest -> rline := (match rest with "call" :: r -> r | r -> r)
        | "W" :: _ -> ws := parse_w line :: !ws
        | "T" :: _ -> skip := true; bump "timing_discards"
        | "X" :: _ -> set_verdict "CRASH"
-       | ["Z"] -> if (not !skip) && !verdict = None then process_event () else (ev := []; rline := []; ws := [])
+       | ["Z"] -> if not !skip then process_event () else (ev := []; rline := []; ws := [])
        | ["END"] ->
          bump "cases";
          if !nontrivial then bump "cases_nontrivial";
